@@ -346,3 +346,8 @@ def thm_rt_partial_attribute(e: bytes, e_type: bytes, name_b: bytes, e_vals: byt
 
 def thm_rt_present(e: bytes, attr_b: bytes, tail: bytes) -> None:
     lemma_tlv_roundtrip(e, 2, False, 7, attr_b, tail)
+
+
+def opt_bool(s: bytes, num: int, acc: bool) -> bool:
+    """Fold for an optional context-tagged BOOLEAN [num] with a default: the last such element decides, otherwise the accumulator."""
+    return acc if len(s) == 0 else opt_bool(rest_of(s), num, bool_den(content_of(s)) if ctx_is(s, num) else acc)
